@@ -4,42 +4,73 @@ From Coq Require Import List NArith Bool.
 From MW Require Import Common.Str C03.Model C04.Model C04.Proofs.
 Import ListNotations.
 
-(* FULL STATEMENT (DESIGN.md C04_eval_correct): for every acyclic universe and every program of the grammar
-   Text | Param | Call | #if | #ifeq | #switch, flatten_model (compile p) = eval p.
-   PROVED HERE (partial): the same for every universe (cyclic or not) on which the reference semantics is defined
-   (`evals n u [] page = Some s` for some fuel n: on acyclic universes that is always the case), for programs WITHOUT
-   #switch (`wf` rejects Switch nodes), of any nesting depth: for every recursion limit above a bound L0 the
+(* C04_eval_correct (DESIGN.md): for every universe (cyclic or not) on which the reference semantics is defined
+   (`evals n u [] page = Some s` for some fuel n) and every program of the grammar
+   Text | Param | Call | #if | #ifeq | #switch, of any nesting depth: for every recursion limit above a bound L0 the
    model of Expander.expandTemplates on the expected parse `compile_body page` returns exactly the reference value:
    positional arguments untrimmed, named ones trimmed, conditional results trimmed, unbound parameters literal,
-   defaults, numeric-aware #ifeq, lazily evaluated arguments bound by position/name.
-   MISSING for the full statement: the SwitchNode case (the fast/unresolved tables of nodes.pyx:79-167 against the
-   first-matching-case semantics); it is covered by the differential runs C04(a), (b), (b') only.
+   defaults, numeric-aware #ifeq, lazily evaluated arguments bound by position/name, and #switch: the first case (in
+   source order, keys of a fall-through group k1|k2|k3=v included) whose key equals the scrutinee (numeric-aware,
+   1.0 = 1), literal keys (SwitchNode.fast, string and numeric entries, first duplicate wins) and computed keys
+   (SwitchNode.unresolved, evaluated in order only up to the earliest literal match) alike, else #default in both
+   forms (|#default=v and a bare last |v), else "".
+   DOMAIN of the reference semantics (`eval` = None outside): template names of the universe only; an argument whose
+   value as bound (trimmed if named) exceeds 256 KiB is outside (mwlib raises MemoryLimitError and drops the node,
+   evaluate.pyx:151-154; MediaWiki has its own limits).
+   `dn_ok dn`: the site's alias list of the magic word "default" contains "#default" and every alias contains '#'.
    `wfl`: grammar characters (no * # : ; | U+EBAD; blanks on which Python strip and PHP trim agree), non-empty
-   text leaves with no two adjacent, stripped names of at most 256 KiB, pairwise distinct argument names per call. *)
-Theorem C04_eval_correct_partial :
+   text leaves with no two adjacent, stripped names of at most 256 KiB, pairwise distinct argument names per call;
+   for #switch every key, value, the scrutinee and the default are such bodies (keys may be empty, literal,
+   computed, duplicated, numeric), with ONE shape excluded: a case "|=|" whose last key AND value are both empty.
+   There the statement is false of the code (C04_switch_empty_case_refuted below). *)
+Theorem C04_eval_correct :
   forall (u : universe) (dn : list str),
-  wfu u ->
+  wfu u -> dn_ok dn ->
   forall (n : nat) (page : list ast) (s : str),
   wfl page = true ->
   evals n u [] page = Some s ->
   exists L0, forall limit, (L0 <= limit)%nat -> impl_expand u dn limit page = Ok s.
 Proof. exact eval_correct. Qed.
-Print Assumptions C04_eval_correct_partial.
+Print Assumptions C04_eval_correct.
 
 (* The same for any sub-program in any environment: `e` binds what `E` binds => compile p flattens to eval p
    (for every large enough budget, at every recursion count), with implicit newlines never firing. *)
 Theorem C04_eval_correct_node :
-  forall (u : universe) (dn : list str), wfu u ->
+  forall (u : universe) (dn : list str), wfu u -> dn_ok dn ->
   forall n E e p s, env_rel u dn E e -> env_ok E -> wf p = true -> eval n u E p = Some s ->
   flat_to u dn (compile p) e s.
 Proof. exact main. Qed.
 Print Assumptions C04_eval_correct_node.
 
+(* what `wf` asks of a #switch node, spelled out *)
+Theorem C04_wf_switch :
+  forall sc cases d,
+  wf (Switch sc cases d) =
+  wfl sc &&
+  forallb (fun c : list (list ast) * list ast * list ast =>
+             match c with
+             | (keys, k, v) => forallb wfl keys && wfl k && wfl v && negb (is_nil k && is_nil v)
+             end) cases &&
+  match d with Some (_, v) => wfl v | None => true end.
+Proof. exact wf_switch. Qed.
+Print Assumptions C04_wf_switch.
+
+(* REFUTED for the excluded shape: "{{#switch:=|=|x=Y}}" — the case "|=|" parses to the bare eqmark, which
+   evaluate.equal_split (:49-51, a str) returns as a value without key; SwitchNode._init then files it as a
+   fall-through key "=" of the next case.  Reference: "" (no key equals "="); mwlib: "Y" at every limit >= 1
+   (the real code returns 'Y' too). *)
+Theorem C04_switch_empty_case_refuted :
+  wfl ex3_page = false /\
+  evals 10 [] [] ex3_page = Some [] /\
+  forall limit, impl_expand [] [default_key] (S limit) ex3_page = Ok [89%N].
+Proof. exact switch_empty_case_refuted. Qed.
+Print Assumptions C04_switch_empty_case_refuted.
+
 (* Text containing no template syntax is returned unchanged — for every string, any universe, any limit *)
 Theorem C04_plain_text_identity :
   forall (u : universe) (dn : list str) (limit : nat) (s : str),
   impl_expand u dn limit [Text s] = Ok s /\ forall n E, eval (S n) u E (Text s) = Some s.
-Proof. intros u dn limit s. split; [apply plain_text_identity|intros; apply plain_text_reference]. Qed.
+Proof. exact plain_text_both. Qed.
 Print Assumptions C04_plain_text_identity.
 
 (* "numeric comparison is by value": the reference equality and magics.maybe_numeric_compare coincide *)
@@ -55,3 +86,13 @@ Example C04_example_program :
   impl_expand ex_u [default_key] 100 ex_page = Ok ex_out.
 Proof. exact example_program. Qed.
 Print Assumptions C04_example_program.
+
+(* non-vacuity with #switch: t2 = "{{#switch:{{{1}}}|a|b=AB|1=one|{{{k}}}=c|#default=D}}" and the page
+   "{{t2|a}}{{t2|1.0}}{{t2|zz}}{{t2|q|k=q}}{{#switch:x|y=n| d }}" satisfy all hypotheses; both sides compute
+   "ABoneDcd": fall-through group, numeric match 1.0 = 1, #default, computed key, bare last value as default *)
+Example C04_example_switch_program :
+  wfl ex2_page = true /\ wfl (snd (hd ([], []) ex2_u)) = true /\ dn_ok [default_key] /\
+  evals 10 ex2_u [] ex2_page = Some ex2_out /\
+  impl_expand ex2_u [default_key] 100 ex2_page = Ok ex2_out.
+Proof. exact example_switch_program. Qed.
+Print Assumptions C04_example_switch_program.
